@@ -298,3 +298,118 @@ func (r *run) c10live(budget int) {
 		r.classes[fmt.Sprintf("live-close tcp=%v", tcp)]++
 	}
 }
+
+// ---- a peer that stops reading for a while: every Send still puts ONE complete frame on the stream ----
+
+// bigFrame is a service body of the harness's own (identifier 0xF00E) that only carries bytes
+type bigFrame []byte
+
+func (bigFrame) Service() knxnet.ServiceID { return 0xf00e }
+func (b bigFrame) Size() uint              { return uint(len(b)) }
+func (b bigFrame) Pack(buffer []byte)      { copy(buffer, b) }
+
+// stalledPeerProbe runs beside the other operations: a TCP peer does not read for `stall`, the client keeps
+// sending 30 000-octet frames (Send blocks once the socket buffers are full), then the peer reads
+// everything.  The byte stream must be the frames of the Sends that returned nil, back to back: no
+// frame twice, no prefix of a frame followed by the frame again, nothing in between.
+func (r *run) stalledPeerProbe(stall time.Duration) (join func()) {
+	type res struct{ kind, detail string }
+	out := make(chan []res, 1)
+	go func() {
+		var rs []res
+		defer func() { out <- rs }()
+		ln, err := net.Listen("tcp4", "127.0.0.1:0")
+		if err != nil {
+			return
+		}
+		defer ln.Close()
+		acc := make(chan net.Conn, 1)
+		go func() {
+			if c, err := ln.Accept(); err == nil {
+				acc <- c
+			}
+		}()
+		sock, err := knxnet.DialTunnelTCP(ln.Addr().String())
+		if err != nil {
+			return
+		}
+		peer := <-acc
+		defer peer.Close()
+		const size = 30000
+		sent := 0 // Sends that returned nil
+		stop := make(chan struct{})
+		sdone := make(chan struct{})
+		go func() {
+			defer close(sdone)
+			for k := 0; ; k++ {
+				select {
+				case <-stop:
+					return
+				default:
+				}
+				body := make([]byte, size)
+				for i := range body {
+					body[i] = byte(k + i)
+				}
+				body[0], body[1], body[2], body[3] = byte(k>>24), byte(k>>16), byte(k>>8), byte(k)
+				if sock.Send(bigFrame(body)) != nil {
+					return
+				}
+				sent++
+			}
+		}()
+		time.Sleep(stall)
+		// now read; the sender stops shortly after and the client closes
+		var stream []byte
+		rd := make(chan struct{})
+		go func() {
+			defer close(rd)
+			buf := make([]byte, 1<<16)
+			for {
+				peer.SetReadDeadline(time.Now().Add(3 * time.Second))
+				n, err := peer.Read(buf)
+				stream = append(stream, buf[:n]...)
+				if err != nil {
+					return
+				}
+			}
+		}()
+		time.Sleep(300 * time.Millisecond)
+		close(stop)
+		select {
+		case <-sdone:
+		case <-time.After(5 * time.Second):
+			rs = append(rs, res{"send-never-returned", "a Send to a peer that had stalled and then read again had not returned 5 s later"})
+		}
+		sock.Close()
+		<-rd
+		// parse
+		frames, pos := 0, 0
+		for pos+6 <= len(stream) {
+			total := int(stream[pos+4])<<8 | int(stream[pos+5])
+			if stream[pos] != 6 || stream[pos+1] != 0x10 || stream[pos+2] != 0xf0 || stream[pos+3] != 0x0e || total != size+6 {
+				rs = append(rs, res{"stream-is-not-a-sequence-of-frames", fmt.Sprintf("after %d complete frames the stream continues with %x at offset %d (%d Sends had returned nil, %d octets received)", frames, stream[pos:pos+6], pos, sent, len(stream))})
+				return
+			}
+			if pos+total > len(stream) {
+				break // the frame that was being written when the client closed
+			}
+			k := int(stream[pos+6])<<24 | int(stream[pos+7])<<16 | int(stream[pos+8])<<8 | int(stream[pos+9])
+			if k != frames {
+				rs = append(rs, res{"stream-is-not-a-sequence-of-frames", fmt.Sprintf("frame number %d on the stream is the frame of Send number %d", frames, k)})
+				return
+			}
+			frames++
+			pos += total
+		}
+		if frames < sent {
+			rs = append(rs, res{"sent-frame-missing", fmt.Sprintf("%d Sends returned nil, the peer received %d complete frames", sent, frames)})
+		}
+	}()
+	return func() {
+		for _, x := range <-out {
+			r.violation(x.kind, fmt.Sprintf("TCP peer does not read for %v while the client sends 30000-octet frames, then reads everything", stall), x.detail)
+		}
+		r.classes["stalled-peer-probe"]++
+	}
+}
